@@ -307,6 +307,7 @@ static void make_scn(Scn& H, const std::map<std::string,std::string>& spec)
         add(S_RELEASEALL); add(S_CLEAR); add(S_STALES); add(S_CLEARALL);
         add(S_WARM,600); add(S_CHURNUP,20); add(S_CHURNDOWN);
         if (H.k.range=='b' || H.k.isEVp() || H.k.isMT()) add(S_CARD,0);
+        if (H.relscn) { for (int m=0;m<(int)H.rcat.size();m++) add(S_BUILDR,m); for (int r=0;r<2;r++) add(S_BUILD,r,(r*3+1)%nc); add(S_IMG,0,0,2); add(S_IMG,1,1,2); for (int a2=0;a2<3;a2++) { add(S_REACH,a2,0,2); add(S_REACH,a2,1,0); } }
         H.audit_each_step = true;
     } else { // c12
         for (int r=0;r<2;r++) for (int f=0;f<nc;f++) add(S_BUILD,r,f);
@@ -314,6 +315,7 @@ static void make_scn(Scn& H, const std::map<std::string,std::string>& spec)
         add(S_VIA,0,2);
         for (int r=0;r<3;r++) add(S_RELEASE,r);
         add(S_CLEAR); add(S_CHURNUP,600); add(S_CHURNDOWN); add(S_CHURNUP,20);
+        if (H.relscn) { for (int m=0;m<(int)H.rcat.size();m++) add(S_BUILDR,m); add(S_IMG,0,0,2); add(S_IMG,1,1,2); for (int a2=0;a2<3;a2++) add(S_REACH,a2,0,2); }
     }
     H.leak_probe = (H.profile=="c06");
     H.differential = H.cfgs.size()>1;
@@ -364,11 +366,15 @@ static void list_units(const std::string& tier0)
             snprintf(b,sizeof b,"profile=c07,kind=%s,shape=%s,depth=%d,cat=5,pol=%s,cfgs=%s,compress=%d", k, sh, th?3:2, pol, th?"ct36":"ct12", th?1:0); emit(b, th?16:8);
             if (!th) { snprintf(b,sizeof b,"profile=c07,kind=%s,shape=%s,depth=3,cat=4,pol=%s,cfgs=default", k, sh, pol); emit(b, 8); }
         }
+        // relation scenario: image / reachability / saturation operations (their own caches and cached relation split) under every CT configuration
+        for (const char* pol : {"eao","eap"}) { snprintf(b,sizeof b,"profile=c07,kind=S:MTb:F,shape=S4,depth=%d,cat=4,pol=%s,rel=I,cfgs=%s", th?3:2, pol, th?"ct36":"ct12"); emit(b, th?16:8);
+            if (!th) { snprintf(b,sizeof b,"profile=c07,kind=S:MTb:F,shape=S4,depth=3,cat=3,pol=%s,rel=I,cfgs=default", pol); emit(b, 8); } }
     } else if (P=="c12") {
         for (const char* k : {"S:MTi:Q","R:MTb:I","S:EVpi:F","R:EVtr:F","S:MTb:F"}) {
             const char* sh = k[0]=='R' ? "S3" : "S7";
             snprintf(b,sizeof b,"profile=c12,kind=%s,shape=%s,depth=%d,cat=%d,cfgs=%s", k, sh, th?3:2, th?8:6, th?"pols36":"pols36"); emit(b, th?16:4);
         }
+        snprintf(b,sizeof b,"profile=c12,kind=S:MTb:F,shape=S4,depth=%d,cat=4,rel=I,cfgs=pols36", th?3:2); emit(b, th?16:4);
     }
 }
 
